@@ -12,7 +12,7 @@ m = json.load(open(src + '/meta.json'))
 lines = open(src + '/CONFIRM.txt').read().splitlines()
 conf = dict(l.split(': ', 1) for l in lines if ': ' in l)
 old = json.load(open(dst + '/meta.json')) if os.path.exists(dst + '/meta.json') else {}
-meta = {"id": sid, "property": m['property'], "round": {"b": 2, "c": 3, "d": 4, "e": 5}.get(sid[-1], 1),
+meta = {"id": sid, "property": m['property'], "round": {"b": 2, "c": 3, "d": 4, "e": 5, "f": 6}.get(sid[-1], 1),
         "summary": m.get('summary'), "needs_to_manifest": m.get('needs'), "files": m.get('files'),
         "origin": "written by a fresh sub-agent that saw only the property text and its own scratch worktree of /repo (nothing from /verif)",
         "confirmed_by_me": {"how": "tools/confirm_seeded.sh in a scratch worktree of /repo HEAD: git apply patch.diff; demo.py <worktree> ; demo.py /repo ; full unedited test suite with the guard variable unset",
